@@ -51,6 +51,10 @@ pub enum Mut {
 
 pub const TEXT_OPS: u8 = 10;
 
+/// U+0130 (2 bytes, lower case 3), U+212A Kelvin sign (3 bytes, lower case 1), U+023A (2 -> 3), sharp s (upper case "SS"),
+/// U+FB01 ligature (upper case "FI"), U+0149 (upper case 2 characters), U+1E9E capital sharp s (3 bytes, lower case 2)
+pub const CASE_LENGTH_CHARS: [&str; 7] = ["\u{130}", "\u{212A}", "\u{23A}", "\u{DF}", "\u{FB01}", "\u{149}", "\u{1E9E}"];
+
 fn text_edit(b: &mut Vec<u8>, line: usize, col: usize, sep: u8, op: u8) {
     // lines are separated by LF (a CR stays with its line)
     let mut lines: Vec<Vec<u8>> = b.split(|c| *c == b'\n').map(|l| l.to_vec()).collect();
@@ -241,6 +245,8 @@ fn junk() -> BoxedStrategy<Bytes> {
         1 => vec(any::<u8>(), 0..300),
         // invalid UTF-8, NULs, line structure, high bytes
         2 => prop::sample::select(vec![vec![0xFFu8], vec![0xC3], vec![0xE2, 0x82], vec![0xF0, 0x9F, 0x98], vec![0x00], vec![b'\r', b'\n'], vec![b'\t'], vec![b'<'], vec![b'>'], vec![b','], vec![0x80, 0x80, 0x80, 0x80]]),
+        // characters whose lower- or upper-case form has another UTF-8 length (byte offsets found in a case-folded copy do not fit the text)
+        1 => prop::sample::select(CASE_LENGTH_CHARS.iter().map(|c| c.as_bytes().to_vec()).collect::<Vec<_>>()),
     ]
     .prop_map(Bytes)
     .boxed()
